@@ -70,6 +70,14 @@ func Consistency(x *Exec, h *Hist, v *PlanView, pi int) [][2]string {
 				add("action-status-vs-final-attempt", "%s is Completed without any attempt", p)
 			}
 		}
+		if o.Kind == "checks" && o.Status == workflow.Completed {
+			// the statuses agree with each other: a group that passed consists of actions that passed
+			for _, ap := range v.Order {
+				if av := v.Objs[ap]; av != nil && av.Kind == "action" && strings.HasPrefix(ap, p+"/") && av.Status != workflow.Completed {
+					add("completed-checks-with-unfinished-action", "%s is Completed but %s is %s with %d attempts", p, ap, av.Status, len(av.Att))
+				}
+			}
+		}
 		if o.Kind == "seq" {
 			acts := x.seqActions(p)
 			switch o.Status {
